@@ -242,6 +242,52 @@ example : (Model.OsEntropy.entropyRead true 5 [1, 2, 3, 4, 5, 6, 7] [.chunk 1, .
 
 example : (Model.OsEntropy.entropyRead true 5 [1, 2, 3, 4, 5, 6, 7] [.chunk 1, .chunk 0, .chunk 9]).got = [1, 2, 3, 4, 5] := by decide
 
+/-! ## One call of any length = the same request made in calls of 65536 bytes
+
+What the harness op `bigread` observes (`same <n>`): the bytes one `crypto_entropy_read(buf, n)` stores — for n ≥ 2^32
+as for any other n — are those of `crypto_entropy_read` called for 65536 bytes at a time and once more for the rest,
+from the same generator state and the same OS answers; the generator state afterwards (Key, V, reseed_counter: the
+reseed schedule) and the OS answers consumed are the same too; if a reseed fails on the way, both fail there. -/
+
+/-- `readChunked` (fuel = n) is the single call: every state, every OS script, every n -/
+theorem read_eq_chunks (st : St) (o : Oracle) (n : Nat) :
+    Model.Entropy.read Cfg.source st o n = Model.Entropy.readChunked Cfg.source n st o n :=
+  (readChunked_eq Cfg.source (by decide) n st o n (Nat.le_refl n)).symm
+
+/-- … for every configuration with a positive `GENERATE_MAXLEN` (not only the literals of this source) -/
+theorem read_eq_chunks_cfg (c : Cfg) (hM : 0 < c.generateMaxlen) (st : St) (o : Oracle) (n : Nat) :
+    Model.Entropy.read c st o n = Model.Entropy.readChunked c n st o n :=
+  (readChunked_eq c hM n st o n (Nat.le_refl n)).symm
+
+/-- the calls of the chunked sequence: ⌈n / 65536⌉ of them (one for n = 0), none longer than 65536, n bytes in all -/
+theorem chunk_sizes (n : Nat) :
+    (∀ k ∈ Model.Entropy.chunkSizes 65536 n n, k ≤ 65536) ∧ (Model.Entropy.chunkSizes 65536 n n).sum = n ∧
+    (Model.Entropy.chunkSizes 65536 n n).length = (n - 1) / 65536 + 1 :=
+  chunkSizes_spec 65536 (by decide) n n (Nat.le_refl n)
+
+/-- what `bigread … cmp` prints as `first=`: a request of more than 65536 bytes begins with the bytes of a request
+    for 65536 bytes, and fails if that one fails -/
+theorem read_first_piece (st : St) (o : Oracle) (n : Nat) (hn : n > 65536) :
+    (∀ out1 st1 o1, Model.Entropy.read Cfg.source st o 65536 = (.ok out1, st1, o1) →
+      Model.Entropy.read Cfg.source st o n = Model.Entropy.prepend out1 (Model.Entropy.read Cfg.source st1 o1 (n - 65536))) ∧
+    (∀ r st1 o1, Model.Entropy.read Cfg.source st o 65536 = (r, st1, o1) → (∀ out, r ≠ .ok out) →
+      Model.Entropy.read Cfg.source st o n = (r, st1, o1)) := by
+  have hs := read_split Cfg.source (by decide) st o n hn
+  have hM : Cfg.source.generateMaxlen = 65536 := by decide
+  rw [hM] at hs
+  constructor
+  · intro out1 st1 o1 h1
+    rw [hs, h1]
+  · intro r st1 o1 h1 hr
+    rw [hs, h1]
+    cases r with
+    | ok out => exact absurd rfl (hr out)
+    | fail => rfl
+    | abort => rfl
+
+example : Model.Entropy.chunkSizes 4 9 9 = [4, 4, 1] ∧ Model.Entropy.chunkSizes 4 8 8 = [4, 4] ∧
+    Model.Entropy.chunkSizes 4 0 0 = [0] := by decide
+
 /-! ## The functions the executables run
 
 `pmodel drbg` applies `Model.EntropyStep.stepOp` to every parsed line, `pmodel osent` applies `osStep`; the drivers
@@ -258,31 +304,59 @@ specification gives (what `pmodel drbg` prints before ` | `) is the outcome of t
 (printed after it), and the two sides stay in correspondence. -/
 theorem exec_step_spec_eq_model (s : Model.EntropyStep.St) (h : ExecRel s) (op : Model.EntropyStep.Op) :
     ExecRel (stepOp s op).1 ∧
-    ∀ r1 r2 m q, (stepOp s op).2 = .read r1 r2 m q → r1 = r2 := by
+    (∀ r1 r2 m q, (stepOp s op).2 = .read r1 r2 m q → r1 = r2) ∧
+    (∀ n r1 r2 m q, (stepOp s op).2 = .bigfull n r1 r2 m q → r1 = r2) ∧
+    (∀ n r1 r2, (stepOp s op).2 = .bigcmp n r1 r2 → r1 = r2) := by
   obtain ⟨h1, h2⟩ := h
+  by_cases hd : s.dead = true
+  · simp only [stepOp, hd, if_true]
+    exact ⟨⟨h1, h2⟩, (by intro _ _ _ _ hq; cases hq), (by intro _ _ _ _ _ hq; cases hq), (by intro _ _ _ hq; cases hq)⟩
+  have both : ∀ k, (Spec.HmacDrbg.Service.read std s.ref s.refOracle k) =
+      mapSt abs (Model.Entropy.read Cfg.source s.m s.mOracle k) := by
+    intro k; rw [h1, h2]; exact (read_refines s.m s.mOracle k).symm
   cases op with
   | ent x =>
-    refine ⟨⟨h1, ?_⟩, ?_⟩
-    · simp only [stepOp, h2]
-    · intro r1 r2 m q hq; simp [stepOp] at hq
+    simp only [stepOp, hd, Bool.false_eq_true, if_false, h2]
+    exact ⟨⟨h1, rfl⟩, (by intro _ _ _ _ hq; cases hq), (by intro _ _ _ _ _ hq; cases hq), (by intro _ _ _ hq; cases hq)⟩
+  | ents xs =>
+    simp only [stepOp, hd, Bool.false_eq_true, if_false, h2]
+    exact ⟨⟨h1, rfl⟩, (by intro _ _ _ _ hq; cases hq), (by intro _ _ _ _ _ hq; cases hq), (by intro _ _ _ hq; cases hq)⟩
   | read n =>
-    have hr := read_refines s.m s.mOracle n
-    simp only [stepOp]
-    rw [h1, h2, ← hr]
+    simp only [stepOp, hd, Bool.false_eq_true, if_false, both n]
     rcases hm : Model.Entropy.read Cfg.source s.m s.mOracle n with ⟨r2, m', mo'⟩
     simp only [mapSt]
-    refine ⟨⟨rfl, rfl⟩, ?_⟩
+    refine ⟨⟨rfl, rfl⟩, ?_, (by intro _ _ _ _ _ hq; cases hq), (by intro _ _ _ hq; cases hq)⟩
     intro r1 r2' m q hq
     simp only [Model.EntropyStep.Out.read.injEq] at hq
     rw [← hq.1, ← hq.2.1]
+  | bigread n full =>
+    cases full with
+    | true =>
+      simp only [stepOp, hd, Bool.false_eq_true, if_false, both n]
+      rcases hm : Model.Entropy.read Cfg.source s.m s.mOracle n with ⟨r2, m', mo'⟩
+      simp only [mapSt]
+      refine ⟨⟨rfl, rfl⟩, (by intro _ _ _ _ hq; cases hq), ?_, (by intro _ _ _ hq; cases hq)⟩
+      intro n' r1 r2' m q hq
+      simp only [Model.EntropyStep.Out.bigfull.injEq] at hq
+      rw [← hq.2.1, ← hq.2.2.1]
+    | false =>
+      simp only [stepOp, hd, Bool.false_eq_true, if_false, both (firstPiece n)]
+      rcases hm : Model.Entropy.read Cfg.source s.m s.mOracle (firstPiece n) with ⟨r2, m', mo'⟩
+      simp only [mapSt]
+      refine ⟨⟨rfl, rfl⟩, (by intro _ _ _ _ hq; cases hq), (by intro _ _ _ _ _ hq; cases hq), ?_⟩
+      intro n' r1 r2' hq
+      simp only [Model.EntropyStep.Out.bigcmp.injEq] at hq
+      rw [← hq.2.1, ← hq.2.2]
 
 open Percival.Model.EntropyStep in
 theorem exec_run_spec_eq_model (ops : List Model.EntropyStep.Op) :
     ExecRel (runOps {} ops).1 ∧
-    ∀ o ∈ (runOps {} ops).2, ∀ r1 r2 m q, o = .read r1 r2 m q → r1 = r2 := by
+    ∀ o ∈ (runOps {} ops).2, (∀ r1 r2 m q, o = .read r1 r2 m q → r1 = r2) ∧
+      (∀ n r1 r2 m q, o = .bigfull n r1 r2 m q → r1 = r2) ∧ (∀ n r1 r2, o = .bigcmp n r1 r2 → r1 = r2) := by
   have init : ExecRel ({} : Model.EntropyStep.St) := ⟨rfl, rfl⟩
   suffices H : ∀ (ops : List Model.EntropyStep.Op) (s : Model.EntropyStep.St), ExecRel s →
-      ExecRel (runOps s ops).1 ∧ ∀ o ∈ (runOps s ops).2, ∀ r1 r2 m q, o = .read r1 r2 m q → r1 = r2 from H ops {} init
+      ExecRel (runOps s ops).1 ∧ ∀ o ∈ (runOps s ops).2, (∀ r1 r2 m q, o = .read r1 r2 m q → r1 = r2) ∧
+        (∀ n r1 r2 m q, o = .bigfull n r1 r2 m q → r1 = r2) ∧ (∀ n r1 r2, o = .bigcmp n r1 r2 → r1 = r2) from H ops {} init
   intro ops
   induction ops with
   | nil => intro s hs; exact ⟨hs, fun o ho => by cases ho⟩
